@@ -77,6 +77,14 @@ func runC10(c *Ctx) {
 			)
 		}
 	}
+	runC10O3(c)
+	runC10Open(c)
+	runC10V1(c)
+	c12SyncWatermark(c, "C10.V2")
+}
+
+// runC10O3: tables are synced before the MANIFEST names them (shared with C12, C36).
+func runC10O3(c *Ctx) {
 	provSync := ImplCall(c.Iface("C10.O3", "objs.Provider"), "objstorage.Provider", "Sync")
 	// C10.O3a: compactAndWrite: every return whose result may carry Err == nil passed objProvider.Sync
 	if fn := c.Fn("C10.O3a", "p.(*DB).compactAndWrite"); fn != nil {
@@ -146,8 +154,6 @@ func runC10(c *Ctx) {
 		res = fl.Analyze(fn, emptyState())
 		c.RequireAtSuccess("C10.O3e", res, "Flush + Sync", []string{"ok:flush", "ok:sync"})
 	}
-	runC10Open(c)
-	runC10V1(c)
 }
 
 // resultLiteralWithErr: the returned value is a freshly built compact.Result
